@@ -303,7 +303,7 @@ Definition spec_op (valid : name -> bool) (o : op) (v : name -> option val)
 
 (* names 0..5 are valid ref names of the harness, 6 is not (b"bad/name") *)
 Definition valid_h (n : name) : bool := N.ltb n 6.
-Definition NAMES : list name := [0; 1; 2; 3; 4; 5]%N.
+Definition NAMES : list name := [0; 1; 2; 3; 4; 5; 6]%N.
 
 Fixpoint of_alist {A} (l : list (name * A)) : name -> option A :=
   match l with
